@@ -706,6 +706,49 @@ def _d12(chk, fb):
     chk.floor("D12", "methods other than fireParameterChanged that re-run the forward pass", n, 3)
 
 
+def _d13(chk, fb):
+    """the stationary vector a built-in transition model serves depends on its parameters: the member getEquilibriumFrequencies()
+    returns must be stored by some member function that can run after an update, not by the constructors alone"""
+    TM = "bpp::AbstractHmmTransitionMatrix"
+    n = 0
+    for cls in sorted(fb.subclasses(TM)):
+        if fb.classes[cls].get("abstract"):
+            continue
+        gs = fb.q(cls + "::getEquilibriumFrequencies")
+        if len(gs) != 1 or gs[0].body is None:
+            chk.fail_broken("anchor vanished: %s::getEquilibriumFrequencies" % cls)
+            continue
+        g = gs[0]
+        rets = [strip(kids(r)[0]) for r in g.all_nodes() if r["k"] == "ReturnStmt" and kids(r)]
+        served = {render(r).replace("this.", "") for r in rets if r is not None and r["k"] == "MemberExpr"}
+        if len(served) != 1:
+            chk.unknown("D13", g.key, "stationary-vector-recomputed", g.loc(), "the getter does not return one member")
+            continue
+        m = list(served)[0]
+        n += 1
+        short = cls.split("::")[-1]
+        later, ctor = [], []
+        for f in fb.concrete_fns():
+            if f.cls != cls or f.body is None:
+                continue
+            for w in f.all_nodes():
+                if w["k"] in ("BinaryOperator", "CompoundAssignOperator") and w.get("op", "").endswith("=") and w["op"] not in ("==", "!=", "<=", ">="):
+                    l_ = render(kids(w)[0]).replace("this.", "")
+                    if l_ == m or l_.startswith(m + "["):
+                        (ctor if f.name == short else later).append((f, w))
+                elif is_call(w) and w["callee"]["name"] in ("operator=", "assign", "swap") and "obj" in w and render(f.obj(w)).replace("this.", "") == m and f.name != "operator=":
+                    (ctor if f.name == short else later).append((f, w))
+        if later:
+            chk.proved("D13", g.key, "stationary-vector-recomputed:" + m, later[0][0].loc(later[0][1]), "'%s' is stored by %s, which runs after updates" % (m, later[0][0].name))
+        elif ctor:
+            chk.refuted("D13", g.key, "stationary-vector-recomputed:" + m, g.loc(),
+                        "getEquilibriumFrequencies serves '%s', which only the constructor of %s stores (%s): after any parameter update the vector is not the stationary distribution of the current matrix"
+                        % (m, short, ctor[0][0].loc(ctor[0][1])), witness={"history": "construct with 3 states; set lambda1 = 0.5, lambda2 = 0.9; compare eq.P with eq"})
+        else:
+            chk.unknown("D13", g.key, "stationary-vector-recomputed:" + m, g.loc(), "no store of '%s' found in %s" % (m, short))
+    chk.floor("D13", "built-in transition models serving a stationary vector", n, 2)
+
+
 def run(chk, fb, tier):
     chk.rule("D1", "every fireParameterChanged below AbstractHmmLikelihood resets the derivative memo keys and clears the backward lazy flags on every path that recomputes the forward pass")
     chk.rule("D2", "a method setting upToDate_ = true has written every member that some getter returns under 'if (!upToDate_)'; fireParameterChanged clears the flag unconditionally")
@@ -729,6 +772,8 @@ def run(chk, fb, tier):
     _d11(chk, fb)
     chk.rule("D12", "every method other than fireParameterChanged that re-runs the forward pass on this object (setBreakPoints) resets the derivative memo keys on every such path")
     _d12(chk, fb)
+    chk.rule("D13", "the member getEquilibriumFrequencies() serves is stored by a member function that runs after parameter updates (not by the constructor alone) in every built-in transition model")
+    _d13(chk, fb)
     from . import argswap as _argswap
     chk.rule("DA", "argument/parameter name agreement at forwarding calls in the anchored units (same-typed parameters must not be swapped)")
     _af = ('src/Bpp/Numeric/Hmm/HmmLikelihood.h', 'src/Bpp/Numeric/Hmm/HmmLikelihood.cpp', 'src/Bpp/Numeric/Hmm/RescaledHmmLikelihood.cpp', 'src/Bpp/Numeric/Hmm/LowMemoryRescaledHmmLikelihood.cpp', 'src/Bpp/Numeric/Hmm/LogsumHmmLikelihood.cpp', 'src/Bpp/Numeric/Hmm/AbstractHmmTransitionMatrix.cpp', 'src/Bpp/Numeric/Hmm/FullHmmTransitionMatrix.cpp', 'src/Bpp/Numeric/Hmm/AutoCorrelationTransitionMatrix.cpp', 'src/Bpp/Numeric/NumTools.h')
